@@ -792,12 +792,16 @@ ScreenVerdict(ev) ==
              \cup (IF ev.bad_frees # 0 THEN {"C18.bad_free"} ELSE {})
   IN [bad |-> bad, arb |-> {}, cov |-> (IF expect # 0 THEN {"C18.rejected_" \o ev.routine} ELSE {"C18.accepted_" \o ev.routine})]
 
+\* the options structure is an input: a value written into it by the library is state carried to the caller's next call
+\* (C09: a repeated call with the same objects no longer has the same arguments; C05: only A and B may be modified)
+OptsCls(ev) == IF Has(ev, "opts_same") /\ ev.opts_same # 1 THEN {"C09.options_written_by_the_library", "C05.options_written_by_the_library"} ELSE {}
 Verdict(ev, pm, sc) ==
   IF ev.e = "Ret" THEN
-     (CASE ev.fn = "gssv" -> GssvVerdict(ev)
-        [] ev.fn = "gstrf" -> GstrfVerdict(ev)
+     (CASE ev.fn = "gssv" -> LET gv == GssvVerdict(ev) IN [gv EXCEPT !.bad = @ \cup OptsCls(ev)]
+        [] ev.fn = "gstrf" -> LET gv == GstrfVerdict(ev) IN [gv EXCEPT !.bad = @ \cup OptsCls(ev)]
         [] ev.fn \in {"gssvx", "gsisx"} -> LET gv == GssvxVerdict(ev, sc) IN
-                                            [gv EXCEPT !.bad = @ \cup (IF sc.rf.stepped THEN {"C13.berr_not_recomputed_after_last_update"} ELSE {})]
+                                            [gv EXCEPT !.bad = @ \cup (IF sc.rf.stepped THEN {"C13.berr_not_recomputed_after_last_update"} ELSE {})
+                                                               \cup OptsCls(ev)]
         [] ev.fn = "screen" -> ScreenVerdict(ev)
         [] ev.fn = "equ" -> EquVerdict(ev)
         [] ev.fn = "lacon" -> LaconVerdict(ev)
